@@ -1,6 +1,7 @@
 package checks
 
 import (
+	"verif/gen/vp8l"
 	"bufio"
 	"bytes"
 	"encoding/binary"
@@ -307,7 +308,12 @@ func mutate(r *rand.Rand, seed []byte, others [][]byte) ([]byte, string) {
 // handmade inputs: declaration bombs and header-prefixed garbage.
 func c05Handmade(r *rand.Rand, i int) ([]byte, string) {
 	le24 := func(v int) []byte { return []byte{byte(v), byte(v >> 8), byte(v >> 16)} }
-	switch i % 12 {
+	switch i % 13 {
+	case 12: // valid, very narrow VP8L pictures (widths 1..7: most plane codes map to distances < 1 and are clamped)
+		p := vp8l.DefaultParams()
+		p.W, p.H = 1+r.Intn(7), 1+r.Intn(40)
+		pl, _ := vp8l.Synthesize(r, p)
+		return vp8l.WrapRIFF(pl), "narrow-vp8l"
 	case 0: // random bytes
 		b := make([]byte, r.Intn(200))
 		r.Read(b)
